@@ -529,7 +529,19 @@ class Gen:
             name = self.new_name()
             self.meta.assigned.add(name)
             self.local_names.append(name)
-            return ["tag", "assign", f"{name} = {self.filtered()}"]
+            expr = self.filtered()
+            if self.loop_vars:
+                # inside a loop, a value built from the assigned name itself (s = ... | join: s, s = s | append: s) grows geometrically with
+                # the iterations: a workload hazard, not a subject of any property. Such expressions are drawn again.
+                import re as _re
+
+                for _ in range(6):
+                    if not _re.search(r"(?<![\w.'\"])" + _re.escape(name) + r"(?![\w'\"])", expr):
+                        break
+                    expr = self.filtered()
+                else:
+                    expr = "1"
+            return ["tag", "assign", f"{name} = {expr}"]
         if k == "echo":
             return ["tag", "echo", self.filtered()]
         if k in ("increment", "decrement"):
